@@ -1,4 +1,186 @@
+// seq_harden.cpp -- C17: hardened builds (MI_SECURE>=4, MI_DEBUG) detect double free, overflow past the requested size and
+// overwritten free-list links; the secure build stays consistent afterwards.
+// sec: many attacks inside one ordinary history, all shadow-model oracles stay active afterwards.
+// dbg: one attack per case; the case ends at the first *expected* report (debug assertions after a detected error are outside the claim).
 #include "seq.hpp"
+
 namespace seq {
-void run_hardening(State&) {}
+
+static uint64_t g_att_double = 0, g_att_overflow = 0, g_att_forged = 0, g_att_skipped = 0, g_forged_allocs_until_report = 0, g_att_classes_n = 0;
+static std::set<size_t> g_att_classes;
+static volatile int g_expect_code = 0;       // error code the running attack must produce
+static volatile int g_expect_seen = 0;
+static volatile int g_unexpected_code = 0;
+
+static void harden_error_cb(int err, void* arg) {
+  (void)arg;
+  State& S = *G;
+  if (g_expect_code != 0 && err == g_expect_code) {
+    g_expect_seen++;
+    if (S.cfg.debug) {
+      // debug build: detection observed; internal assertions that may follow are outside the claim
+      vf_finish_ok();
+    }
+    return;
+  }
+  if (g_unexpected_code == 0) g_unexpected_code = err;
+  vf_error_cb(err, nullptr);
 }
+
+static void begin_attack(int code) { vf_err_reset(); g_expect_code = code; g_expect_seen = 0; g_unexpected_code = 0; }
+static void end_attack(State& S, const char* what, const char* detail_fmt, size_t n, void* p) {
+  int seen = g_expect_seen, code = g_expect_code;
+  g_expect_code = 0;
+  if (g_unexpected_code != 0)
+    vf_trip("hardening-wrong-report", "C17", "%s (block %p, size %zu): mimalloc reported error %d (%s) instead of %d: %s", what, p, n, (int)g_unexpected_code, strerror(g_unexpected_code), code, vf_last_msgs);
+  if (seen == 0)
+    vf_trip(detail_fmt, "C17", "%s (block %p, size %zu) was not reported (expected error code %d %s)", what, p, n, code, strerror(code));
+  vf_err_reset();
+  (void)S;
+}
+
+struct AreaCtx { uintptr_t target; uintptr_t lo = 0, hi = 0; };
+static bool area_visitor(const mi_heap_t*, const mi_heap_area_t* area, void* block, size_t, void* arg) {
+  AreaCtx* c = (AreaCtx*)arg;
+  if (block == nullptr) { uintptr_t lo = (uintptr_t)area->blocks, hi = lo + area->reserved; if (c->target >= lo && c->target < hi) { c->lo = lo; c->hi = hi; return false; } }
+  return true;
+}
+// does the area (page) of block b hold another live block?
+static bool area_has_other_live(State& S, vf::Blk* b) {
+  AreaCtx c; c.target = (uintptr_t)b->p;
+  mi_heap_visit_blocks(S.heaps[b->heap].h, false, &area_visitor, &c);
+  if (c.lo == 0) return false;
+  for (auto it = S.sm.by_addr.lower_bound(c.lo); it != S.sm.by_addr.end() && it->first < c.hi; ++it) if (it->second != b) return true;
+  return false;
+}
+
+static size_t attack_size(State& S) {
+  unsigned r = (unsigned)vf_rng_below(&S.rng, 100);
+  size_t n;
+  if (r < 55) n = 1 + (size_t)vf_rng_below(&S.rng, 1024);
+  else if (r < 85) n = 1025 + (size_t)vf_rng_below(&S.rng, 7 * 1024);
+  else n = 8 * 1024 + 1 + (size_t)vf_rng_below(&S.rng, 56 * 1024 - 64);
+  return n;
+}
+
+static int ensure_default_is_backing(State& S) { return S.cur_default; }
+
+// (1) second free of a thread-local block whose area still holds another live block
+static void attack_double_free(State& S) {
+  size_t n = attack_size(S);
+  int K = 3 + (int)vf_rng_below(&S.rng, 4);
+  std::vector<vf::Blk*> bs;
+  for (int i = 0; i < K; i++) { vf::Blk* b = do_alloc(S, EP_malloc, n); if (b) bs.push_back(b); }
+  if (bs.size() < 2) { g_att_skipped++; return; }
+  vf::Blk* victim = bs[vf_rng_below(&S.rng, bs.size())];
+  if (!area_has_other_live(S, victim)) { g_att_skipped++; return; }
+  void* p = victim->p;
+  do_free(S, victim, EP_free);            // first free (legitimate)
+  vf_cur_what = "second free";
+  begin_attack(EAGAIN);
+  g_att_double++; g_att_classes.insert(mi_good_size(n));
+  mi_free(p);                             // second free, before any allocation of that class
+  end_attack(S, "second free of a thread-local block while its area holds another live block", "double-free-undetected", n, p);
+  if (S.cfg.secure) check_conservation(S, "after an ignored double free", "C17");
+  (void)ensure_default_is_backing;
+}
+
+// (2) a foreign byte just past the requested size
+static void attack_overflow(State& S) {
+  size_t n = attack_size(S);
+  vf::Blk* b = do_alloc(S, (vf_rng_chance(&S.rng, 1, 2) ? EP_malloc : EP_zalloc), n);
+  if (b == nullptr) { g_att_skipped++; return; }
+  uint8_t* p = b->p; n = b->n;
+  uint8_t oldv = p[n];
+  uint8_t newv = (uint8_t)(vf_rng_next(&S.rng) & 0xff);
+  if (newv == oldv) newv = (uint8_t)(oldv ^ 0x5a);
+  p[n] = newv;                            // the program error
+  // a few ordinary operations may happen in between
+  vf_cur_what = "free of an overflowed block";
+  S.sm.verify(b, "before free of the overflowed block");
+  S.sm.remove(b);
+  begin_attack(EFAULT);
+  g_att_overflow++; g_att_classes.insert(mi_good_size(n));
+  mi_free(p);
+  S.n_free++;
+  end_attack(S, "write of a foreign byte just past the requested size", "overflow-undetected", n, p);
+  if (S.cfg.secure) check_conservation(S, "after a reported overflow", "C17");
+}
+
+// (3) an overwritten free-list link
+static void attack_forged_link(State& S) {
+  int alive = 0; for (auto& e : S.heaps) if (e.alive) alive++;
+  if (alive >= 9) { g_att_skipped++; return; }
+  size_t n = attack_size(S);
+  mi_heap_t* h = mi_heap_new();
+  if (h == nullptr) { g_att_skipped++; return; }
+  HeapEnt e; e.h = h; e.alive = true; S.heaps.push_back(e);
+  int hi = (int)S.heaps.size() - 1;
+  S.force_heap = hi;
+  int K = 4 + (int)vf_rng_below(&S.rng, 8);
+  std::vector<vf::Blk*> bs;
+  for (int i = 0; i < K; i++) { vf::Blk* b = do_alloc(S, EP_heap_malloc, n); if (b) bs.push_back(b); }
+  if (bs.size() < 3) { S.force_heap = -1; g_att_skipped++; return; }
+  size_t vi = 1 + (size_t)vf_rng_below(&S.rng, bs.size() - 2);
+  vf::Blk* victim = bs[vi];
+  if (!area_has_other_live(S, victim)) { S.force_heap = -1; g_att_skipped++; return; }
+  uint8_t* p = victim->p;
+  do_free(S, victim, EP_free);
+  uint64_t forged = vf_rng_next(&S.rng) | 1;     // random 64-bit value (decodes into the same area with probability ~2^-48)
+  memcpy(p, &forged, sizeof(forged));           // the program error: use after free overwriting the link
+  vf_cur_what = "allocations reaching a forged free-list link";
+  begin_attack(EFAULT);
+  S.walk_disabled = true;                        // the allocator may drop the rest of that free list
+  size_t made = 0;
+  const size_t limit = 20000;
+  g_att_forged++; g_att_classes.insert(mi_good_size(n));
+  while (g_expect_seen == 0 && made < limit) {
+    vf::Blk* b = do_alloc(S, EP_heap_malloc, n);
+    made++;
+    if (b == nullptr) break;
+    if (g_unexpected_code != 0) break;
+  }
+  g_forged_allocs_until_report += made;
+  S.force_heap = -1;
+  end_attack(S, "overwritten free-list link", "forged-link-unreported", n, p);
+  // give most of the memory back so the history stays small
+  std::vector<vf::Blk*> mine;
+  for (vf::Blk* b : S.sm.live) if (b->heap == hi) mine.push_back(b);
+  for (size_t i = 0; i < mine.size() && i < made; i++) do_free(S, mine[i]);
+  if (S.cfg.secure) check_conservation(S, "after a reported free-list corruption", "C17");
+}
+
+static void harden_print(FILE* f) {
+  fprintf(f, ",\"hardening\":{\"double_free\":%llu,\"overflow\":%llu,\"forged_link\":%llu,\"skipped\":%llu,\"classes\":%zu,\"allocs_until_forged_reported\":%llu}",
+          (unsigned long long)g_att_double, (unsigned long long)g_att_overflow, (unsigned long long)g_att_forged, (unsigned long long)g_att_skipped, g_att_classes.size(),
+          (unsigned long long)g_forged_allocs_until_report);
+  (void)g_att_classes_n;
+}
+
+void run_hardening(State& S) {
+  add_result_printer(&harden_print);
+  if (!S.cfg.padding) vf_trip("harness", "", "the hardening profile needs a secure or debug build");
+  mi_register_error(&harden_error_cb, nullptr);
+  S.region_check = true;
+  S.cfg.size_cap = 64 * 1024;
+  std::string keep = S.cfg.profile;
+  history_begin(S);
+  uint64_t next_attack = 20 + vf_rng_below(&S.rng, S.cfg.debug ? (S.cfg.ops > 40 ? S.cfg.ops - 40 : 1) : 120);
+  for (S.op_index = 0; S.op_index < S.cfg.ops; S.op_index++) {
+    history_step(S);
+    if (S.op_index >= next_attack) {
+      unsigned k = (unsigned)vf_rng_below(&S.rng, 3);
+      if (k == 0) attack_double_free(S);
+      else if (k == 1) attack_overflow(S);
+      else attack_forged_link(S);
+      next_attack = S.op_index + 40 + vf_rng_below(&S.rng, 160);
+      if (S.cfg.debug && (g_att_double + g_att_overflow + g_att_forged) > 0) {
+        // debug build and the attack was NOT reported (otherwise the callback ended the case)
+        vf_trip("harness", "", "debug case continued after an attack");
+      }
+    }
+  }
+  history_end(S);
+}
+
+} // namespace seq
